@@ -1,0 +1,156 @@
+//go:build verif
+
+package tls
+
+import (
+	"crypto/cipher"
+	"errors"
+)
+
+// Verification accessors for the record layer (properties C25, C27, C28): no call sites in the
+// library, only compiled with -tags verif. (The in-tree server is made to select the legacy ChaCha20
+// and EnableWeakCiphers suites, which are not in its preference order, with VerifOverride.ForceSuite12.)
+
+// VerifRecordSuite describes one TLS 1.0-1.2 cipher suite table entry as the code has it.
+// Kind / BlockSize / ExplicitNonce / Overhead / MacSize are read off the objects the
+// suite's own constructors return, not from a second table.
+type VerifRecordSuite struct {
+	ID            uint16
+	KeyLen        int
+	MacLen        int
+	IVLen         int
+	Flags         int
+	ECDHE         bool
+	ECSign        bool
+	TLS12Only     bool
+	SHA384        bool
+	Kind          string // "aead" | "cbc" | "stream"
+	BlockSize     int    // cbc
+	ExplicitNonce int    // aead: explicit nonce bytes carried in each record
+	Overhead      int    // aead: tag length
+	MacSize       int    // cbc, stream: size of the MAC the suite's constructor returns
+}
+
+func verifRecordSuite(cs *cipherSuite) VerifRecordSuite {
+	in := VerifRecordSuite{ID: cs.id, KeyLen: cs.keyLen, MacLen: cs.macLen, IVLen: cs.ivLen, Flags: cs.flags,
+		ECDHE: cs.flags&suiteECDHE != 0, ECSign: cs.flags&suiteECSign != 0,
+		TLS12Only: cs.flags&suiteTLS12 != 0, SHA384: cs.flags&suiteSHA384 != 0}
+	key := make([]byte, cs.keyLen)
+	iv := make([]byte, cs.ivLen)
+	if cs.aead != nil {
+		a := cs.aead(key, iv)
+		in.Kind = "aead"
+		in.ExplicitNonce = a.explicitNonceLen()
+		in.Overhead = a.Overhead()
+		return in
+	}
+	switch c := cs.cipher(key, iv, false).(type) {
+	case cipher.Stream:
+		in.Kind = "stream"
+	case cbcMode:
+		in.Kind = "cbc"
+		in.BlockSize = c.BlockSize()
+	default:
+		in.Kind = "unknown"
+	}
+	if cs.mac != nil {
+		in.MacSize = cs.mac(make([]byte, cs.macLen)).Size()
+	}
+	return in
+}
+
+func verifRecordSuites(l []*cipherSuite) []VerifRecordSuite {
+	out := make([]VerifRecordSuite, 0, len(l))
+	for _, cs := range l {
+		out = append(out, verifRecordSuite(cs))
+	}
+	return out
+}
+
+// VerifRecordCipherSuites dumps the upstream table cipherSuites.
+func VerifRecordCipherSuites() []VerifRecordSuite { return verifRecordSuites(cipherSuites) }
+
+// VerifRecordSupportedCipherSuites dumps utlsSupportedCipherSuites as it is at the time of the call
+// (i.e. after EnableWeakCiphers if that was called in this process).
+func VerifRecordSupportedCipherSuites() []VerifRecordSuite {
+	return verifRecordSuites(utlsSupportedCipherSuites)
+}
+
+// VerifRecordSuite13 describes one TLS 1.3 suite.
+type VerifRecordSuite13 struct {
+	ID       uint16
+	KeyLen   int
+	Overhead int
+	HashSize int
+}
+
+func VerifRecordCipherSuitesTLS13() []VerifRecordSuite13 {
+	out := []VerifRecordSuite13{}
+	for _, cs := range cipherSuitesTLS13 {
+		a := cs.aead(make([]byte, cs.keyLen), make([]byte, aeadNonceLength))
+		out = append(out, VerifRecordSuite13{ID: cs.id, KeyLen: cs.keyLen, Overhead: a.Overhead(), HashSize: cs.hash.Size()})
+	}
+	return out
+}
+
+// VerifSendKeyUpdate originates a TLS 1.3 KeyUpdate on c (the public API cannot): it sends the
+// message under the current write key and then ratchets the write traffic secret, exactly as the
+// answering half of (*Conn).handleKeyUpdate does.
+func VerifSendKeyUpdate(c *Conn, request bool) error {
+	if !c.isHandshakeComplete.Load() || c.vers != VersionTLS13 {
+		return errors.New("verif: key update needs a completed TLS 1.3 handshake")
+	}
+	cs := cipherSuiteTLS13ByID(c.cipherSuite)
+	if cs == nil {
+		return errors.New("verif: no TLS 1.3 suite")
+	}
+	c.out.Lock()
+	defer c.out.Unlock()
+	if err := c.out.err; err != nil {
+		return err
+	}
+	if c.closeNotifySent {
+		return errShutdown
+	}
+	msg := &keyUpdateMsg{updateRequested: request}
+	b, err := msg.marshal()
+	if err != nil {
+		return err
+	}
+	if _, err := c.writeRecordLocked(recordTypeHandshake, b); err != nil {
+		return c.out.setErrorLocked(err)
+	}
+	c.out.setTrafficSecret(cs, QUICEncryptionLevelInitial, cs.nextTrafficSecret(c.out.trafficSecret))
+	return nil
+}
+
+// VerifRecordState is what the record layer of c currently holds (an observation, nothing is changed).
+type VerifRecordState struct {
+	OutSeq   uint64 // next outgoing sequence number
+	InSeq    uint64 // next expected incoming sequence number
+	InputLen int    // decrypted application bytes of the current record not yet returned by Read
+	Vers     uint16
+	Suite    uint16
+}
+
+func verifRecordSeq(b [8]byte) uint64 {
+	var v uint64
+	for _, x := range b {
+		v = v<<8 | uint64(x)
+	}
+	return v
+}
+
+func VerifRecordStateOf(c *Conn) VerifRecordState {
+	var st VerifRecordState
+	c.out.Lock()
+	st.OutSeq = verifRecordSeq(c.out.seq)
+	c.out.Unlock()
+	c.in.Lock()
+	st.InSeq = verifRecordSeq(c.in.seq)
+	st.InputLen = c.input.Len()
+	c.in.Unlock()
+	st.Vers = c.vers
+	st.Suite = c.cipherSuite
+	return st
+}
